@@ -1,7 +1,7 @@
 """Per-property tables used by the orchestrator and by the MANIFEST generator."""
 import c19
 
-PLAIN = lambda tier: ["plain"]  # noqa: E731
+PLAIN = lambda tier: ["plain", "cover"] if tier == "thorough" else ["plain"]  # noqa: E731
 
 COMMON_ASSUME = [
     "verdicts cover only the executions this run produced (see coverage.observed); no claim about histories not generated",
